@@ -25,6 +25,9 @@ def gen_cases(rng, tier: str) -> list[dict]:
         if h % 4 == 0:
             ops = rng.choice(H.directed_prefixes(rng, pool)) + ops
         cases.append({"origin": "random" if h % 4 else "directed", "pool": texts, "ops": ops})
+        if h % 4 == 2:
+            pool6 = H.float_pool(H.wide_pool(rng))
+            cases.append({"origin": "wide", "pool": H.pool_to_wire(pool6), "ops": H.repeated_simplification(rng, pool6)[: 12]})
         if h % 5 == 1:
             # sums and products of equal but distinct operand objects, used at several points
             g = gen.Gen(rng, names=("x", "y"), floats_only=True)
